@@ -250,6 +250,25 @@ theorem by_by_sum (c : Cont) (k1 k2 : Nat) (hk1 : 0 < k1) (hk2 : 0 < k2) :
 example : (downBy Reduce.sum.apply (.cont ⟨100, 3, [1, 2, 3, 4, 5, 6, 7, 8, 9, 10, 11, 12, 13]⟩) 6).toOption
     = some ⟨107, 18, [21, 57]⟩ := by decide +kernel
 
+/-- For `reduce ∈ {sum, mean, min, max}` (reductions compatible with equal blocks, `BlockCompat`) two successive
+    `downsampled_by` ARE one: `downsampled_by(k₁).downsampled_by(k₂) = downsampled_by(k₁·k₂)` — samples, timestamps,
+    period.  (Not for the median: the median of block medians is not the median; the tie exercises that case and the
+    oracle judges it stage by stage.) -/
+theorem by_by_compat (red : Reduce) (hred : red ≠ .median) (c : Cont) (k1 k2 : Nat) (hk1 : 0 < k1) (hk2 : 0 < k2) :
+    ∃ r1 r2, downBy red.apply (.cont c) k1 = .ok r1 ∧ downBy red.apply (.cont r1) k2 = .ok r2 ∧
+      downBy red.apply (.cont c) (k1 * k2) = .ok r2 := by
+  have hc : BlockCompat red.apply := by
+    cases red with
+    | mean => exact compat_mean
+    | sum => exact compat_sum
+    | min => exact compat_min
+    | max => exact compat_max
+    | median => exact absurd rfl hred
+  exact by_by_compat' red.apply hc c k1 k2 hk1 hk2
+
+example : (downBy Reduce.max.apply (.cont ⟨100, 3, [1, 9, 3, 4, 5, 6, 7, 8, 2, 10, 11, 12, 13]⟩) 6).toOption
+    = some ⟨107, 18, [9, 12]⟩ := by decide +kernel
+
 /-- Long channels are handed to the model as a rule (`sample i = v i`, `contOf`); the model then answers
     a window of the downsampled channel from the rule alone.  That window IS the slice `[i0 : i0 + cnt]`
     of the full answer of `downsampled_by(k)` (to which `by_spec` applies), and the reported number of
@@ -627,7 +646,8 @@ theorem to_freq_eq_by (f : List Rat → Rat) (c : Cont) (k : Nat) (m : Method) (
 example : downToFreqQ Reduce.mean.apply (.cont ⟨0, 12800, (List.range 23).map fun (i : Nat) => (i : Rat)⟩) 15625 (some .safe) (some true)
     = some (.ok [(25600, 2), (89600, 7), (153600, 12), (217600, 17)]) := by decide +kernel
 
-/-! ## `downsampled_like` (`pw = false` is the code as it is; `pw = true` the proposed repair of F9) -/
+/-! ## `downsampled_like` (`pw = true` is the code as it is since the repair of F9 in /repo d1dbc24; `pw = false` is the
+    code before that repair, kept with its theorems and the F9 witness as the record of the finding) -/
 
 /-- For a reference with strictly increasing timestamps the two returned channels carry identical
     timestamps, and the cropped reference is a contiguous run `reference[i:j]` of the reference. -/
@@ -649,7 +669,7 @@ theorem like_value_spec (pw : Bool) (f : List Rat → Rat) (c : Cont) (hdt : 0 <
   obtain ⟨i, j, hk, _⟩ := likeKept_slice pw c ref.timestamps
   exact ⟨i, j, hk⟩
 
-/-- Which reference samples are kept, as the code is: for a sorted reference exactly those with
+/-- Which reference samples were kept by the code BEFORE the repair of F9 (`pw = false`): for a sorted reference exactly those with
     `T - δ₀ ≥ start` and `T < stop`, δ₀ being the FIRST window length — not the sample's own window
     length, which is finding F9. -/
 theorem like_kept_spec (c : Cont) (T : List Int) (hs : T.Pairwise (· < ·)) :
@@ -657,7 +677,7 @@ theorem like_kept_spec (c : Cont) (T : List Int) (hs : T.Pairwise (· < ·)) :
       decide (c.start ≤ p.1 - (likeDeltas T).headD 0) && decide (p.1 < c.stop) :=
   likeKept_spec' c T hs
 
-/-- Windows lie within the source span — for the code as it is this holds whenever no window is longer
+/-- Windows lie within the source span — for the code before the repair of F9 (`pw = false`) this holds whenever no window is longer
     than the first one (constant reference period, or a frame rate that only goes up); the complementary
     class is finding F9. -/
 theorem like_within_span (c : Cont) (T : List Int) (hs : T.Pairwise (· < ·))
@@ -665,7 +685,7 @@ theorem like_within_span (c : Cont) (T : List Int) (hs : T.Pairwise (· < ·))
     ∀ p ∈ likeKept false c T, c.start ≤ p.1 - p.2 ∧ p.1 < c.stop :=
   like_within_span' c T hs hδ
 
-/-- ext: the proposed repair of F9 (`searchsorted(T - δ, start)`, `pw = true`) keeps exactly the
+/-- The code as it is now (`searchsorted(T - δ, start)`, `pw = true`, the repair of F9) keeps exactly the
     reference samples whose OWN window lies inside the source span (window starts in order). -/
 theorem like_repaired_kept_spec (c : Cont) (T : List Int) (hs : T.Pairwise (· < ·))
     (hw : (T.zip (likeDeltas T)).Pairwise (fun a b => a.1 - a.2 ≤ b.1 - b.2)) :
@@ -899,6 +919,12 @@ theorem arith_chain (op1 op2 : Op) (a b c r : Src) (ha : a.wf) (hb : b.wf) (hc :
   · intro r' hr'
     obtain ⟨_, g2, g3, _⟩ := arith_spec op2 r c hr hc r' hr'
     exact ⟨by rw [g2, h2], by rw [g3, h3]⟩
+
+/-- Non-vacuity of `arith_chain`: `(a + b) * c` on three channels with the same timestamps; a shifted `c` is refused. -/
+example : ((arith .add (.cont ⟨100, 10, [1, 2]⟩) (.ts [(100, 3), (110, 4)])).toOption.bind fun r =>
+      (arith .mul r (.cont ⟨100, 10, [2, 3]⟩)).toOption).map (·.samples) = some [(100, 8), (110, 18)] := by decide +kernel
+example : ((arith .add (.cont ⟨100, 10, [1, 2]⟩) (.ts [(100, 3), (110, 4)])).toOption.map fun r =>
+      arith .mul r (.cont ⟨101, 10, [2, 3]⟩)) = some (.error .runtime) := by decide +kernel
 
 /-- `a - b` is `a + (-b)`: same refusals, same result. -/
 theorem sub_eq_add_neg (a b : Src) : arith .sub a b = arith .add a (neg b) := by
